@@ -10,7 +10,7 @@
 (*    root/d/m            absent | link                                    *)
 (*    index.html (in the root's parent)   absent | regular file            *)
 (* Links point to files and directories inside and outside the root, to    *)
-(* the root itself, to its parent, to a look-alike sibling ("rootx"), to   *)
+(* the root itself, to its parent, to a look-alike sibling ("rootx"), to a sibling spelled like the root in another letter case ("ROOT"), to   *)
 (* nothing, or to themselves.  Paths are sequences of names from "/top".   *)
 (*                                                                         *)
 (* Real(layout, p): resolution as the OS does it (links followed at every  *)
@@ -52,6 +52,8 @@ Node(lay, p) ==
       [] p = <<"root", "d", "index.html">> -> Choice(lay.idx)
       [] p = <<"root", "l">> -> Choice(lay.l)
       [] p = <<"root", "d", "m">> -> Choice(lay.m)
+      [] p = <<"ROOT">> -> Dir                          \* a sibling whose name differs from the root's only in letter case
+      [] p = <<"ROOT", "c.txt">> -> File("CASE")
       [] p = <<"rootx">> -> Dir
       [] p = <<"rootx", "s.txt">> -> File("EVIL")
       [] p = <<"out">> -> Dir
